@@ -17,7 +17,8 @@ package postprocessor
 //@ func (*postprocessor).worker
 //@   property C17
 //@   attr hooked @C01 inputCh,outputCh
-//@   attr cancellable @C03 inputCh,outputCh
+//@   attr cancellable @C03 inputCh,outputCh,ResumeCh
+//@   replay c03_stopPaused_postprocessor:cancellable:ResumeCh
 //@   local nIn int = 0
 //@   local nOut int = 0
 //@   local inHand *models.Item = nil
